@@ -49,27 +49,22 @@ Definition rs_digits_ok (ds : list N) : bool :=
 Definition rs_evl (ev : option rc_event) (base : N) : list rc_event :=
   match ev with Some e => [rc_shift base e] | None => [] end.
 
-Fixpoint rs_seg_events (fuel : nat) (s : list N) (base : N) : option (list rc_event) :=
-  match fuel with
-  | O => None
-  | S f =>
-      match s with
-      | [] => None
-      | _ =>
-          match rc_scan_step s with
-          | (ev, k, w, touched) =>
-              if touched then None else
-              match w with
-              | WNoEol => None
-              | WEolEnd => Some (rs_evl ev base)
-              | WInside =>
-                  match rs_seg_events f (rc_drop k s) (base + k) with
-                  | Some l => Some (rs_evl ev base ++ l)
-                  | None => None
-                  end
-              end
-          end
-      end
+(* the scan run over a segment in isolation: every iteration must stay clear of the end of the segment (no token
+   runs into it, an end of line is found) and the last one must end exactly at the end of the segment *)
+Fixpoint rs_seg_walk (s : list N) (skip : N) (base : N) : option (list rc_event) :=
+  match s with
+  | [] => if skip =? 0 then Some [] else None
+  | _ :: s' =>
+      if 0 <? skip then rs_seg_walk s' (skip - 1) (base + 1)
+      else
+        match rc_scan_step s with
+        | (ev, k, w, touched) =>
+            if touched || (k =? 0) || match w with WNoEol => true | _ => false end then None
+            else match rs_seg_walk s' (k - 1) (base + 1) with
+                 | Some l => Some (rs_evl ev base ++ l)
+                 | None => None
+                 end
+        end
   end.
 
 Definition rs_no_objs (evs : list rc_event) : bool :=
@@ -81,7 +76,7 @@ Definition rs_starts_ok (s : list N) : bool :=
 (* a body / a tail is quiet: it starts a line, the scan finds no header in it and ends exactly at its end *)
 Definition rs_quiet (seg : list N) : bool :=
   rs_starts_ok seg &&
-  match rs_seg_events (S (length seg)) seg 0 with Some evs => rs_no_objs evs | None => false end.
+  match rs_seg_walk seg 0 0 with Some evs => rs_no_objs evs | None => false end.
 
 (* the tail (xref section, trailer, startxref, %%EOF) is the end of the file: the scan over it, to the end of
    input, reports no header *)
